@@ -243,3 +243,18 @@ Definition fail_rows (r : rel) (index : nat) : list nat := map (fun v => index_o
 (* what choice_reduce of the remaining variables accepts *)
 Definition red_seqs (r : rel) (index : nat) : choices_repr :=
   flat_map (fun v => level_seqs r (index_or0 v (rvars r)) 2) (rest_vars r index).
+
+(* ------------------------------------------------------------------ the dependency clause (specification) *)
+
+(* v depends on u at the vector c: the entry (u, v) of the simple matrix is not zero.  The relation of a
+   loop is a closure (fixpoint), so for the analysed loop the direct dependencies at c are the
+   transitive ones. *)
+Definition depends_at (r : rel) (c : list nat) (u v : nat) : bool :=
+  negb (sc_eqb (cell (simple_matrix r c) u v) O).
+
+(* c is failure-free for variable number u: it selects no infinity in column u *)
+Definition failure_free (r : rel) (c : list nat) (u : nat) : bool := accepted (level_seqs r u 2) c.
+
+(* c is failure-free for variable number v and for every variable v depends on at c *)
+Definition valid_for_dependencies (r : rel) (c : list nat) (v : nat) : bool :=
+  forallb (fun u => negb (depends_at r c u v) || failure_free r c u) (seq 0 (length (rvars r))).
